@@ -562,4 +562,61 @@ func corpusSub(r *core.Run, name string, cfg core.Cfg, keep func([]byte) bool, f
 	docsSub(r, name, fmt.Sprintf("%d documents of %s under %s", len(docs), corpusRule, cfg), cfg, docs, fn)
 }
 
-const corpusRule = "the structured corpus (nesting documents, colliding heading sequences, footnote sequences, attribute blocks, replication families, leak-prone documents, printed model documents with tab/space indentation in every single-deviation spelling, small tables with every pair of cell contents, code lines under containers in every tab/space mixture)"
+const corpusRule = "the structured corpus (nesting documents, colliding heading sequences, footnote sequences, attribute blocks, replication families, leak-prone documents, printed model documents with tab/space indentation in every single-deviation spelling, small tables with every pair of cell contents, code lines under containers in every tab/space mixture, indexed families of n footnotes / reference links / table columns and rows / attributes / inline items for every n up to a bound)"
+
+// CountDocs returns indexed families whose size parameter n takes EVERY value 1..maxN: n footnotes (references then
+// definitions, and the other way round; every second one referenced twice), n reference links with n definitions, tables of
+// n columns and of n rows, a heading with n attributes / n classes, n emphasis runs, emphasis and bracket nesting of depth
+// n, n links / code spans / autolinks / entities / raw tags / hard breaks in one paragraph, n definitions of one term and
+// n terms, n task items, list nesting of depth n, quote nesting of depth n. Any table, cache, stack or buffer that grows
+// with the number of such items crosses each of its thresholds at some n.
+func CountDocs(maxN int) [][]byte {
+	var out [][]byte
+	rep := func(n int, f func(i int) string) string {
+		var b strings.Builder
+		for i := 1; i <= n; i++ {
+			b.WriteString(f(i))
+		}
+		return b.String()
+	}
+	for n := 1; n <= maxN; n++ {
+		fnRefs := rep(n, func(i int) string {
+			if i%2 == 0 {
+				return fmt.Sprintf("x[^%d] y[^%d]\n", i, i)
+			}
+			return fmt.Sprintf("x[^%d]\n", i)
+		})
+		fnDefs := rep(n, func(i int) string { return fmt.Sprintf("[^%d]: note %d\n\n", i, i) })
+		lrUses := rep(n, func(i int) string { return fmt.Sprintf("[r%d] [t][R%d] ", i, i) })
+		lrDefs := rep(n, func(i int) string { return fmt.Sprintf("[r%d]: /u%d 't%d'\n", i, i, i) })
+		deep := n
+		if deep > 60 {
+			deep = 60 // nesting deeper than this is the business of the nesting families of C01
+		}
+		out = append(out,
+			[]byte(fnRefs+"\n"+fnDefs),
+			[]byte(fnDefs+fnRefs),
+			[]byte(lrUses+"\n\n"+lrDefs),
+			[]byte(lrDefs+"\n"+lrUses+"\n"),
+			[]byte("|"+rep(n, func(i int) string { return fmt.Sprintf("h%d|", i) })+"\n|"+rep(n, func(i int) string { return []string{"-|", ":-|", "-:|", ":-:|"}[i%4] })+"\n|"+rep(n, func(i int) string { return fmt.Sprintf("c%d|", i) })+"\n|x|\n"),
+			[]byte("|a|b|\n|-|:-|\n"+rep(n, func(i int) string { return fmt.Sprintf("|r%d|`p\\|q`|\n", i) })),
+			[]byte("# t {"+rep(n, func(i int) string { return fmt.Sprintf("a%d=v%d ", i, i) })+"}\n"),
+			[]byte("# t {"+rep(n, func(i int) string { return fmt.Sprintf(".c%d ", i) })+"#i}\n"),
+			[]byte(rep(n, func(i int) string { return fmt.Sprintf("*e%d* __s%d__ ", i, i) })+"\n"),
+			[]byte(strings.Repeat("*", deep)+"a"+strings.Repeat("*", deep)+"\n"),
+			[]byte(strings.Repeat("[", deep)+"a"+strings.Repeat("](u)", deep)+"\n"),
+			[]byte(rep(n, func(i int) string { return fmt.Sprintf("[l%d](/u%d \"t\") ![i%d](/s%d) ", i, i, i, i) })+"\n"),
+			[]byte(rep(n, func(i int) string {
+				return fmt.Sprintf("`c%d` <http://a%d.b> &amp; &#%d; <b>r%d</b> ", i, i, 64+i%26, i)
+			})+"\n"),
+			[]byte(rep(n, func(i int) string { return fmt.Sprintf("l%d  \nm%d\\\n", i, i) })+"end\n"),
+			[]byte("T\n"+rep(n, func(i int) string { return fmt.Sprintf(": d%d\n", i) })),
+			[]byte(rep(n, func(i int) string { return fmt.Sprintf("T%d\n: d\n\n", i) })),
+			[]byte(rep(n, func(i int) string { return fmt.Sprintf("- [%s] t%d\n", []string{" ", "x"}[i%2], i) })),
+			[]byte(rep(deep, func(i int) string { return strings.Repeat("  ", i-1) + fmt.Sprintf("- i%d\n", i) })),
+			[]byte(strings.Repeat("> ", deep)+"q\n"),
+			[]byte(rep(n, func(i int) string { return fmt.Sprintf("~~s%d~~ www.a%d.bc \"q%d\" -- ", i, i, i) })+"\n"),
+		)
+	}
+	return out
+}
